@@ -554,6 +554,19 @@ Die öffentliche generische Funktion setze mit dem Parameter a vom Typ T Referen
 Und kann so benutzt werden:
 	"Setze <a>"
 
+Wir nennen die generische öffentliche Kombination aus
+	dem öffentlichen T erstes,
+ein Paar, und erstellen sie so:
+	"Paar(<erstes>)"
+
+Die öffentliche generische Funktion opplus mit den Parametern a und b vom Typ T-Paar und T-Paar, gibt ein T zurück, macht:
+	Gib erstes von b zurück.
+Und überlädt den "plus" Operator.
+
+Die öffentliche generische Funktion opals mit dem Parameter a vom Typ T-Paar, gibt ein T zurück, macht:
+	Gib erstes von a zurück.
+Und überlädt den "als" Operator.
+
 Die öffentliche generische Funktion messe mit dem Parameter l vom Typ T Liste, gibt eine Zahl zurück,
 ist in "ext.c" definiert
 und kann so benutzt werden:
@@ -562,8 +575,9 @@ und kann so benutzt werden:
 # variable name -> (declaration, model spec, printed parameter type)
 FI_VARS = dict(z=("Die Zahl z ist 1.", "Z", "Zahl"), k=("Die Kommazahl k ist 1,5.", "K", "Kommazahl"), t=("Der Text t ist \"x\".", "T", "Text"),
                n=("Die Nummer n ist 2.", "A#9(Z)", "Nummer"), lz=("Die Zahlen Liste lz ist eine leere Zahlen Liste.", "L(Z)", "Zahlen_Liste"),
-               lt=("Die Text Liste lt ist eine leere Text Liste.", "L(T)", "Text_Liste"), lk=("Die Kommazahlen Liste lk ist eine leere Kommazahlen Liste.", "L(K)", "Kommazahlen_Liste"))
-FI_FUNS = dict(ident=(1, False), pluseins=(2, False), zwei=(4, False), setze=(5, False), messe=(3, True))
+               lt=("Die Text Liste lt ist eine leere Text Liste.", "L(T)", "Text_Liste"), lk=("Die Kommazahlen Liste lk ist eine leere Kommazahlen Liste.", "L(K)", "Kommazahlen_Liste"),
+               zp=("Das Zahl-Paar zp ist Paar(1).", "S#2001", "Zahl-Paar"), tp=("Das Text-Paar tp ist Paar(\"a\").", "S#2002", "Text-Paar"))
+FI_FUNS = dict(ident=(1, False), pluseins=(2, False), zwei=(4, False), setze=(5, False), messe=(3, True), opplus=(6, False), opals=(7, False))
 FI_MODS = dict(decl=1, mid=2, main=3)
 
 
@@ -572,8 +586,13 @@ def fi_program(rng):
     def calls(mod, n):
         out = []
         for _ in range(n):
-            f = rng.choice(["ident", "ident", "pluseins", "zwei", "setze", "messe", "messe"])
-            if f == "messe":
+            f = rng.choice(["ident", "ident", "pluseins", "zwei", "setze", "messe", "messe", "opplus", "opplus", "opals"])
+            if f in ("opplus", "opals"):        # generic operator overloads: requested through typechecker.findOverload(Cast)
+                v = rng.choice(["zp", "tp"])
+                a = [v, v] if f == "opplus" else [v]
+                params = [(FI_VARS[v][1], 0) for _ in a]
+                txt = "%s plus %s" % (v, v) if f == "opplus" else "%s als %s" % (v, "Zahl" if v == "zp" else "Text")
+            elif f == "messe":
                 a = [rng.choice(["lz", "lt", "lk"])]
                 params = [(FI_VARS[a[0]][1], 0)]
                 txt = "messe %s" % a[0]
@@ -582,10 +601,10 @@ def fi_program(rng):
                 params = [(FI_VARS[x][1], 0) for x in a]
                 txt = "zwei %s und %s" % tuple(a)
             else:
-                a = [rng.choice(["z", "k", "t", "n", "lz"])]
+                a = [rng.choice(["z", "k", "t", "n", "lz", "zp"])]
                 params = [(FI_VARS[a[0]][1], 1 if f == "setze" else 0)]
                 txt = {"ident": "ident %s", "pluseins": "pluseins %s", "setze": "Setze %s"}[f] % a[0]
-            fails = f == "pluseins" and a[0] in ("t", "lz")
+            fails = f == "pluseins" and a[0] in ("t", "lz", "zp")
             out.append((mod, f, txt, params, fails))
         return out
     cm, ca = calls("mid", rng.randint(0, 5)), calls("main", rng.randint(3, 10))
